@@ -151,6 +151,11 @@ class KGUndefined:
     def __str__(self):
         return ":undefined"
 
+    def __reduce__(self):
+        # pickle by reference to the module-level singleton so that identity
+        # tests (`x is KLONG_UNDEFINED`) still hold after IPC transport
+        return "KLONG_UNDEFINED"
+
 
 KLONG_UNDEFINED = KGUndefined()
 
